@@ -205,7 +205,38 @@ def run(prog: Program) -> Results:
                         loop = cur
                         break
                     cur = pm.get(cur)
+                search = None
                 if loop is None:
+                    # search-then-delete: `for i, x in enumerate(C): if <test on x>: break` / `else: raise|return`, deletion after the loop
+                    for cand in ast.walk(f.node):
+                        if isinstance(cand, ast.For) and isinstance(cand.iter, ast.Call) and callee(cand.iter) == "enumerate" \
+                                and isinstance(cand.target, ast.Tuple) and isinstance(cand.target.elts[0], ast.Name) \
+                                and cand.target.elts[0].id == idx.id and not any(m.node is x for x in ast.walk(cand)):
+                            search = cand
+                if loop is None and search is not None:
+                    elem_id = getattr(search.target.elts[1], "id", None)
+                    spm = parent_map(search)
+                    breaks = [b for b in ast.walk(ast.Module(body=search.body, type_ignores=[])) if isinstance(b, ast.Break)]
+
+                    def guarded(b):
+                        cur_ = spm.get(b)
+                        while cur_ is not None and cur_ is not search:
+                            if isinstance(cur_, ast.If) and any(isinstance(x, ast.Name) and x.id == elem_id for x in ast.walk(cur_.test)):
+                                return True
+                            cur_ = spm.get(cur_)
+                        return False
+
+                    leaves = bool(search.orelse) and isinstance(search.orelse[-1], (ast.Raise, ast.Return))
+                    stores = [x for x in ast.walk(f.node) if isinstance(x, ast.Name) and x.id == idx.id and isinstance(x.ctx, ast.Store)]
+                    if norm(search.iter.args[0]) != cont:
+                        why = (f"`{idx.id}` indexes `{norm(search.iter.args[0])}` but the deletion is from `{cont}`: the two lists are "
+                               f"not index-aligned (attrpath families occupy one entry in values and several in the order)")
+                    elif not (breaks and all(guarded(b) for b in breaks) and leaves and len(stores) == 1):
+                        why = (f"`{idx.id}` comes from a search loop that can end without having found the element (no `else: raise/return`), "
+                               f"or leaves it unguarded")
+                    else:
+                        ok = True
+                elif loop is None:
                     why = f"`{idx.id}` is not the index of an enclosing enumerate() loop"
                 elif norm(loop.iter.args[0]) != cont:
                     why = (f"`{idx.id}` indexes `{norm(loop.iter.args[0])}` but the deletion is from `{cont}`: the two lists are "
